@@ -114,7 +114,8 @@ def ideal (k : MatchKind) (P : List (List α)) (sk : StartKind) (hasPre : Bool) 
     mpats := Ideal.out k Q
     patLen := fun pid => (P.getD pid []).length
     patternsLen := P.length
-    minLen := (P.map List.length).foldl min (P.headD []).length
+    -- `min_pattern_len` starts at `usize::MAX` (64-bit) and is lowered by each pattern
+    minLen := (P.map List.length).foldl min 18446744073709551615
     maxLen := (P.map List.length).foldl max 0
     kind := k
     hasPre := hasPre }
